@@ -159,9 +159,12 @@ def rcAll (c : RcCfg) : List PCmd → Except Err (List PCmd)
       | .error e => .error e
       | .ok r => .ok (code ++ r)
 
-/-- `_replace_constants(commands)` -/
-def replaceConstants (exc : List (String × Nat)) (nreg : Nat) (P : List PCmd) : Except Err (List PCmd) :=
-  rcAll ⟨exc, nreg, currentRegisters P⟩ P
+/-- `_replace_constants(commands, reserved_registers)`: `current_registers |= {str(r) for r in
+reserved_registers}` — registers that hold live values although the subroutine does not mention
+them are never used as scratch registers (fix of F42; the default is the empty set) -/
+def replaceConstants (exc : List (String × Nat)) (nreg : Nat) (P : List PCmd) (reserved : List Reg := []) :
+    Except Err (List PCmd) :=
+  rcAll ⟨exc, nreg, currentRegisters P ++ reserved⟩ P
 
 /-- the pre-fix pass (scratch registers avoid top-level registers only) -/
 def replaceConstantsTop (exc : List (String × Nat)) (nreg : Nat) (P : List PCmd) : Except Err (List PCmd) :=
@@ -251,14 +254,16 @@ def buildAll (T : Table) : List PCmd → Except Err (List Instr)
       | .ok is => .ok (i :: is)
 
 /-- the three rewriting passes, before the classes are instantiated -/
-def assembleProto (exc : List (String × Nat)) (nreg : Nat) (P : List PCmd) : Except Err (List PCmd) :=
-  match replaceConstants exc nreg (makeArgsOperands P) with
+def assembleProto (exc : List (String × Nat)) (nreg : Nat) (P : List PCmd) (reserved : List Reg := []) :
+    Except Err (List PCmd) :=
+  match replaceConstants exc nreg (makeArgsOperands P) reserved with
   | .error e => .error e
   | .ok P1 => assignBranchLabels P1
 
-/-- `assemble_subroutine` with all passes enabled -/
-def assemble (T : Table) (exc : List (String × Nat)) (nreg : Nat) (P : List PCmd) : Except Err (List Instr) :=
-  match assembleProto exc nreg P with
+/-- `assemble_subroutine(pre_subroutine, reserved_registers=reserved)` with all passes enabled -/
+def assemble (T : Table) (exc : List (String × Nat)) (nreg : Nat) (P : List PCmd) (reserved : List Reg := []) :
+    Except Err (List Instr) :=
+  match assembleProto exc nreg P reserved with
   | .error e => .error e
   | .ok P2 => buildAll T P2
 
